@@ -59,6 +59,22 @@ PROPS = {
         "assumptions": ["randomness of the seat manager (shuffled seats, first big-blind seat) enters the model as a recorded choice, checked for legality"],
         "extra_obligations": [],
     },
+    **{pid: {
+        "layers": ["hd"], "classes": [pid + ".", "CONTRACT."],
+        "modes": {"quick": [{"mode": "hand", "args": ["-n", 64, "-hands", 3], "timeout": 900}],
+                  "thorough": [{"mode": "hand", "args": ["-n", 2500, "-hands", 4, "-workers", 16], "timeout": 3000}],
+                  "search": [{"mode": "hand", "args": ["-n", 600, "-hands", 3, "-workers", 16], "timeout": 1500}]},
+        "rule": ("random multi-hand histories on the real table engine with the real pokerface engine behind a recording / fault-injecting backend: 2..7 participants "
+                 "(plus a sitting-out player), stacks 15..3500, structures sb-bb / ante / dealer blind / no SB; every request is answered (random order, repeated answers), "
+                 "every decision point is probed with illegal submissions (stranger, not dealt in, out of turn, disallowed kind, no hand running), random legal betting lines "
+                 "with legal amounts, deadline extensions, injected backend failures of player actions (then retried) and of the engine's own steps; every submission and every "
+                 "hand state reaching the table is replayed through the Lean HD model (result class, statistics, last action, deadline) and the monitors run on the "
+                 "implementation's snapshots; non-trivial = at least one hand settled; distinct = distinct trace texts"),
+        "trusted_base": TB_COMMON + ["pokerface (hand rules) is an oracle of the model: each backend call carries the outcome the real engine produced; contracts PF.wf / PF.accepts / StableEvent are monitored on every state and action of every run (class CONTRACT.*)"],
+        "assumptions": ["table status at the moment of a call and the engine clock at the moment a state is delivered are inputs of the model (scheduler / wall clock)",
+                        "the harness submits only at quiescent points (the last state the backend returned has reached the table)"],
+        "extra_obligations": [],
+    } for pid in ["C10", "C11", "C13", "C14", "C15"]},
     "C09": {
         "layers": ["ogm"], "classes": ["C09."],
         "modes": {"quick": [{"mode": "ogm", "args": ["-n", 400, "-stress", 300]}],
